@@ -10,7 +10,7 @@ using namespace vp;
 extern "C" { long vp_file_size(void); int vp_file_byte(long i); }
 
 #ifndef LEN
-#define LEN 4
+#define LEN 5
 #endif
 
 namespace {
@@ -60,7 +60,7 @@ extern "C" int harness_main()
 	int nudp;
 	{
 		config cfg;
-		cfg.mtu = 2;
+		cfg.mtu = 4;
 		simulation s(cfg);
 		asio::io_context& tios = s.get_io_context();
 		std::shared_ptr<dropper> drp = std::make_shared<dropper>(2, 2);
